@@ -376,6 +376,7 @@ pub fn aggregate_table(query: &Select, rows: &[RowCtx]) -> TableOutcome {
     }
     // 2. keys
     let mut buckets: Vec<(Vec<V>, Vec<&RowCtx>)> = Vec::new();
+    let mut other_names: Vec<Vec<V>> = Vec::new();
     for r in &passing {
         let mut key = Vec::new();
         for g in &query.group_by {
@@ -395,7 +396,13 @@ pub fn aggregate_table(query: &Select, rows: &[RowCtx]) -> TableOutcome {
             }
         }
         match buckets.iter_mut().find(|(k, _)| k.len() == key.len() && k.iter().zip(key.iter()).all(|(a, b)| a.ref_eq(b))) {
-            Some((_, members)) => members.push(r),
+            Some((k, members)) => {
+                // an equal key written differently (1 and 1.0): which of them names the group is not stated
+                if format!("{:?}", k) != format!("{:?}", key) {
+                    other_names.push(key);
+                }
+                members.push(r)
+            }
             None => buckets.push((key, vec![r])),
         }
     }
@@ -429,6 +436,15 @@ pub fn aggregate_table(query: &Select, rows: &[RowCtx]) -> TableOutcome {
         let mut eval_item = |e: &E, env: &HashMap<String, V>| -> Cell {
             // a key expression textually identical to a GROUP BY element
             if let Some(pos) = query.group_by.iter().position(|g| g == e) {
+                let mut names: Vec<V> = vec![key[pos].clone()];
+                for other in &other_names {
+                    if other.len() == key.len() && other.iter().zip(key.iter()).all(|(a, b)| a.ref_eq(b)) && !names.iter().any(|n| format!("{:?}", n) == format!("{:?}", other[pos])) {
+                        names.push(other[pos].clone());
+                    }
+                }
+                if names.len() > 1 {
+                    return Cell::OneOf(names);
+                }
                 return Cell::Exact(Ev::val(key[pos].clone()));
             }
             match find_agg(e) {
